@@ -1,389 +1,530 @@
 (* ConcLibProofs.v — C20: the library's memo protocols are memo-shaped; the complete
-   first-load / first-dump / EnvWizard programs of classes in the safe region are
-   linearizable under every schedule; refutation witnesses outside the safe region. *)
+   first-load / first-dump / EnvWizard / v1-catch-all programs of classes in the safe region
+   (everything except classes with JSON-path fields, F31) are linearizable under every
+   schedule; refutation witnesses for the open defect F31. *)
 From DW Require Import PyStr T_ConcHooks ConcModel ConcProofs.
 From Coq Require Import List Arith Bool Lia.
 Import ListNotations.
 
-(* admissible values of the library's tables *)
-Definition R_lib (T : tab) (k : key) (v : val) : Prop :=
-  match T with
-  | T_LOADFUNC => exists l snap, v = VL (l :: snap)   (* a generated cls_fromdict *)
-  | T_DUMPFUNC => exists o skip, v = VL (o :: skip)   (* a generated cls_asdict *)
-  | T_DUMPER => exists o, v = VN o                    (* a dumper class (created by thread o) *)
-  | T_DEFREG => exists o, v = VN o                    (* a defaults dict (created by thread o) *)
-  | T_ALIAS => v <> VL []                             (* no field is dumped under a JSON path *)
-  | T_PATH => False                                   (* no JSON-path entry *)
-  | T_OBJ => v = VN 1                                 (* every set/dict object mirrors os.environ *)
-  | T_VARNAMES | T_CLEANED => exists a, v = VN a
-  | T_V1ALIAS | T_V1FLAG => False
-  | _ => True
-  end.
-
-Definition Imp_lib (T : tab) (k : key) (v : val) : list (tab * key) :=
-  match T, v with
-  | T_VARNAMES, VN a | T_CLEANED, VN a => [(T_OBJ, a)]   (* the object exists before it is published *)
-  | _, _ => []
-  end.
-
-Notation M := (memo_prog R_lib Imp_lib).
-
-Ltac inc_pre :=
-  repeat match goal with H : incl (_ :: _) _ |- _ => apply incl_cons_inv in H; destruct H as [_ H] end.
-Ltac inc_in :=
-  first [ assumption
-        | match goal with |- In _ (_ :: _) => right; inc_in end
-        | match goal with H : incl _ ?B |- In _ ?B => apply H; inc_in end ].
-Ltac inc := cbn [Imp_lib app] in *; inc_pre; first [ apply incl_nil_l | intros ?x ?Hx; inc_in ].
-
-Lemma M_rd_known : forall K T k c r,
-  In (T, k) K -> (forall v, R_lib T k v -> M (Imp_lib T k v ++ (T, k) :: K) (c (Some v)) r) ->
-  M K (Rd T k c) r.
-Proof. intros K T k c r Hin H. apply MP_rd; [intros Hn _; now elim Hn | exact H]. Qed.
-
-Lemma M_rd_any : forall K T k c r,
-  (forall K' o, incl K K' -> M K' (c o) r) -> (forall v, Imp_lib T k v = []) -> M K (Rd T k c) r.
+(* ids of the fields that have a default: facts *)
+Lemma dflt_ids_ge : forall fs i j, In j (dflt_ids fs i) -> i <= j.
 Proof.
-  intros K T k c r H Hi. apply MP_rd.
-  - intros _ _. apply H. inc.
-  - intros v _. rewrite Hi. apply H. inc.
+  induction fs as [|f fs IH]; intros i j H; cbn [dflt_ids] in H; [contradiction|].
+  apply in_app_or in H as [H|H].
+  - destruct (fd_dflt f); [destruct H as [<-|[]]; lia | contradiction].
+  - apply IH in H. lia.
 Qed.
 
-(* ------------------------------------------------------------ the protocols *)
-Lemma M_p_fields : forall K c r, (forall K', incl K K' -> M K' c r) -> M K (p_fields c) r.
+Lemma subset_refl : forall l, subset l l = true.
 Proof.
-  intros K c r Hc. unfold p_fields. apply MP_rd.
-  - intros _ _. apply MP_yield. apply MP_wr; [exact I | inc |].
-    apply M_rd_known; [now left|]. intros v _. cbn [need]. apply Hc. inc.
-  - intros v _. apply M_rd_known; [now left|]. intros v2 _. cbn [need]. apply Hc. inc.
+  intro l. unfold subset. apply forallb_forall. intros x Hx. unfold mem.
+  apply existsb_exists. exists x. split; [assumption | apply Nat.eqb_refl].
 Qed.
 
-Lemma M_for_fields : forall (P : fdesc -> Prop) fs i K body c r,
-  Forall P fs ->
-  (forall i f k K', P f -> incl K K' -> (forall K'', incl K' K'' -> M K'' k r) -> M K' (body i f k) r) ->
-  (forall K', incl K K' -> M K' c r) ->
-  M K (for_fields fs i body c) r.
-Proof.
-  intros P fs. induction fs as [|f fs IH]; intros i K body c r HP Hb Hc; cbn [for_fields].
-  - apply Hc. inc.
-  - inversion HP; subst. apply Hb; [assumption | inc |].
-    intros K'' Hi. apply IH; auto.
-    + intros i0 f0 k K' Hf Hi' Hk. apply Hb; auto. inc.
-    + intros K' Hi'. apply Hc. inc.
-Qed.
+Section Lib.
+  Variable cd : cdesc.       (* the class all calls of a scenario are about *)
+  Let DF : list nat := dflt_ids (cd_fields cd) 0.
 
-(* FIELD_TO_DEFAULT: the WRITER side is harmless in itself (every write is admissible) *)
-Lemma M_fill_defaults : forall tid cd K k r, (forall K', incl K K' -> M K' k r) ->
-  M K (Yield Y_defaults_registered
-         (p_fields (for_fields (cd_fields cd) 0
-            (fun i f k => Yield Y_defaults_fill (if fd_dflt f then Wr (T_DEFAULTS tid) i VU k else k)) k))) r.
-Proof.
-  intros tid cd K k r Hk. apply MP_yield. apply M_p_fields. intros K1 H1.
-  apply M_for_fields with (P := fun _ => True).
-  - clear. induction (cd_fields cd); constructor; auto.
-  - intros i f k0 K' _ Hi Hk0. apply MP_yield. destruct (fd_dflt f).
-    + apply MP_wr; [exact I | inc |]. apply Hk0. inc.
-    + apply Hk0. inc.
-  - intros K' Hi. apply Hk. inc.
-Qed.
+  (* admissible values of the library's tables *)
+  Definition R_lib (T : tab) (k : key) (v : val) : Prop :=
+    match T with
+    | T_LOADFUNC => if Nat.eqb k K_V1CLS
+                    then v = VN 1                           (* v1: a function that handles the catch-all field *)
+                    else exists l snap, v = VL (l :: snap)  (* a generated cls_fromdict *)
+    | T_DUMPFUNC => exists o skip, v = VL (o :: skip) /\ subset DF skip = true
+                                                          (* a generated cls_asdict that knows every default *)
+    | T_DUMPER => exists o, v = VN o                      (* a dumper class (created by thread o) *)
+    | T_DEFREG => exists o, v = VN o                      (* a defaults dict (created by thread o) *)
+    | T_DEFAULTS _ => In k DF                             (* only fields that have a default are entered *)
+    | T_ALIAS => v <> VL []                               (* no field is dumped under a JSON path *)
+    | T_PATH => False                                     (* no JSON-path entry *)
+    | T_OBJ => v = VN 1                                   (* every set/dict object mirrors os.environ *)
+    | T_VARNAMES | T_CLEANED => exists a, v = VN a
+    | _ => True
+    end.
 
-Lemma M_p_defaults : forall fx tid cd K c r,
-  (forall o K', incl K K' -> M K' (c o) r) -> M K (p_defaults fx tid cd c) r.
-Proof.
-  intros fx tid cd K c r Hc. unfold p_defaults. apply MP_rd.
-  - intros _ _. apply MP_yield. destruct (fx32 fx).
-    + apply M_fill_defaults. intros K1 H1. apply MP_wr; [now exists tid | inc |].
-      apply M_rd_known; [now left|]. intros v [o ->]. apply Hc. inc.
-    + apply MP_wr; [now exists tid | inc |]. apply M_fill_defaults. intros K1 H1.
-      apply M_rd_known; [apply H1; now left|]. intros v [o ->]. apply Hc. inc.
-  - intros v _. apply M_rd_known; [now left|]. intros v2 [o ->]. apply Hc. inc.
-Qed.
+  (* publication order: what is present whenever an entry holds a value *)
+  Definition Imp_lib (T : tab) (k : key) (v : val) : list (tab * key) :=
+    match T, v with
+    | T_VARNAMES, VN a | T_CLEANED, VN a => [(T_OBJ, a)]      (* the object exists before it is published *)
+    | T_DEFREG, VN o => map (fun i => (T_DEFAULTS o, i)) DF   (* the defaults dict is complete when published *)
+    | T_V1FLAG, _ => [(T_V1ALIAS, K_CATCH_ALL)]               (* the set-up flag is set after the alias table is filled *)
+    | _, _ => []
+    end.
 
-Lemma M_p_loader : forall tid K c r, (forall K', incl K K' -> M K' c r) -> M K (p_loader tid c) r.
-Proof.
-  intros tid K c r Hc. unfold p_loader. apply MP_rd.
-  - intros _ _. apply MP_yield. apply MP_wr; [exact I | inc |]. apply Hc. inc.
-  - intros v _. apply Hc. inc.
-Qed.
+  Notation M := (memo_prog R_lib Imp_lib).
 
-Lemma M_p_dumper : forall tid K c r, (forall o K', incl K K' -> M K' (c o) r) -> M K (p_dumper tid c) r.
-Proof.
-  intros tid K c r Hc. unfold p_dumper. apply MP_rd.
-  - intros _ _. apply MP_yield. apply MP_wr; [now exists tid | inc |].
-    apply M_rd_known; [now left|]. intros v [o ->]. apply Hc. inc.
-  - intros v [o ->]. apply Hc. inc.
-Qed.
+  Ltac inc_pre :=
+    repeat match goal with
+           | H : incl (_ :: _) _ |- _ => apply incl_cons_inv in H; destruct H as [_ H]
+           | H : incl (_ ++ _) _ |- _ => apply incl_app_inv in H; destruct H as [_ H]
+           end.
+  Ltac inc_in :=
+    first [ assumption
+          | match goal with |- In _ (_ :: _) => right; inc_in end
+          | match goal with |- In _ (_ ++ _) => apply in_or_app; right; inc_in end
+          | match goal with H : incl _ ?B |- In _ ?B => apply H; inc_in end ].
+  Ltac inc := cbn [Imp_lib app] in *; inc_pre; first [ apply incl_nil_l | intros ?x ?Hx; inc_in ].
 
-Lemma M_p_setattr : forall cd a K c r, (forall K', incl K K' -> M K' c r) -> M K (p_setattr cd a c) r.
-Proof.
-  intros cd a K c r Hc. unfold p_setattr. destruct (cd_wiz cd); [|apply Hc; inc].
-  apply MP_rd.
-  - intros _ _. apply MP_wr; [exact I | inc |]. apply Hc. inc.
-  - intros v _. apply Hc. inc.
-Qed.
+  Lemma M_rd_known : forall K T k c r,
+    In (T, k) K -> (forall v, R_lib T k v -> M (Imp_lib T k v ++ (T, k) :: K) (c (Some v)) r) ->
+    M K (Rd T k c) r.
+  Proof. intros K T k c r Hin H. apply MP_rd; [intros Hn _; now elim Hn | exact H]. Qed.
 
-Definition no_paths (cd : cdesc) : Prop := Forall (fun f => fd_path f = false) (cd_fields cd).
+  Lemma M_rd_any : forall K T k c r,
+    (forall K' o, incl K K' -> M K' (c o) r) -> (forall v, Imp_lib T k v = []) -> M K (Rd T k c) r.
+  Proof.
+    intros K T k c r H Hi. apply MP_rd.
+    - intros _ _. apply H. inc.
+    - intros v _. rewrite Hi. apply H. inc.
+  Qed.
 
-Lemma size_path_empty : forall K c r, M K (c 0) r -> M K (Size T_PATH c) r.
-Proof. intros. apply MP_size_empty; auto. Qed.
+  (* ------------------------------------------------------------ the protocols *)
+  Lemma M_p_fields : forall K c r, (forall K', incl K K' -> M K' c r) -> M K (p_fields c) r.
+  Proof.
+    intros K c r Hc. unfold p_fields. apply MP_rd.
+    - intros _ _. apply MP_yield. apply MP_wr; [exact I | inc |].
+      apply M_rd_known; [now left|]. intros v _. cbn [need]. apply Hc. inc.
+    - intros v _. apply M_rd_known; [now left|]. intros v2 _. cbn [need]. apply Hc. inc.
+  Qed.
 
-Lemma M_p_load_cfg : forall fx cd K c r, no_paths cd ->
-  (forall K', incl K K' -> M K' c r) -> M K (p_load_cfg fx cd c) r.
-Proof.
-  intros fx cd K c r Hnp Hc. unfold p_load_cfg. apply MP_rd.
-  - intros _ _. apply size_path_empty. cbn [Nat.eqb]. apply MP_yield.
-    apply M_p_fields. intros K1 H1.
-    apply M_for_fields with (P := fun f => fd_path f = false); [exact Hnp | |].
-    + intros i f k K' Hf Hi Hk. apply MP_yield. rewrite Hf. apply Hk. inc.
-    + intros K' Hi. apply MP_yield. apply MP_wr; [exact I | inc |]. apply Hc. inc.
-  - intros v _. apply M_rd_known; [now left|]. intros v2 _. cbn [need]. apply Hc. inc.
-Qed.
+  Lemma M_for_fields : forall (P : fdesc -> Prop) fs i K body c r,
+    Forall P fs ->
+    (forall i f k K', P f -> incl K K' -> (forall K'', incl K' K'' -> M K'' k r) -> M K' (body i f k) r) ->
+    (forall K', incl K K' -> M K' c r) ->
+    M K (for_fields fs i body c) r.
+  Proof.
+    intros P fs. induction fs as [|f fs IH]; intros i K body c r HP Hb Hc; cbn [for_fields].
+    - apply Hc. inc.
+    - inversion HP; subst. apply Hb; [assumption | inc |].
+      intros K'' Hi. apply IH; auto.
+      + intros i0 f0 k K' Hf Hi' Hk. apply Hb; auto. inc.
+      + intros K' Hi'. apply Hc. inc.
+  Qed.
 
-Lemma M_p_dump_cfg : forall fx cd K c r, no_paths cd ->
-  (forall K', incl K K' -> M K' c r) -> M K (p_dump_cfg fx cd c) r.
-Proof.
-  intros fx cd K c r Hnp Hc. unfold p_dump_cfg. apply MP_rd.
-  - intros _ _. apply MP_yield. apply size_path_empty. cbn [Nat.eqb]. apply MP_yield.
-    apply M_p_fields. intros K1 H1.
-    apply M_for_fields with (P := fun f => fd_path f = false); [exact Hnp | |].
-    + intros i f k K' Hf Hi Hk. apply MP_yield. rewrite Hf. apply Hk. inc.
-    + intros K' Hi. apply MP_yield. apply MP_wr; [exact I | inc |]. apply Hc. inc.
-  - intros v _. apply Hc. inc.
-Qed.
+  (* FIELD_TO_DEFAULT: the fill loop enters exactly the default fields into the thread's own dict *)
+  Lemma M_fill_loop : forall tid fs i K k r,
+    (forall j, In j (dflt_ids fs i) -> In j DF) ->
+    (forall K', incl K K' -> (forall j, In j (dflt_ids fs i) -> In (T_DEFAULTS tid, j) K') -> M K' k r) ->
+    M K (for_fields fs i
+           (fun i f k => Yield Y_defaults_fill (if fd_dflt f then Wr (T_DEFAULTS tid) i VU k else k)) k) r.
+  Proof.
+    intros tid fs. induction fs as [|f fs IH]; intros i K k r Hin Hk; cbn [for_fields].
+    - apply Hk; [inc | intros j []].
+    - apply MP_yield. cbn [dflt_ids] in Hin, Hk. destruct (fd_dflt f).
+      + apply MP_wr; [apply Hin; now left | inc |].
+        apply IH.
+        * intros j Hj. apply Hin. now right.
+        * intros K' Hi Hj. apply Hk; [inc|].
+          intros j [<-|Hjn]; [apply Hi; now left | now apply Hj].
+      + apply IH.
+        * intros j Hj. now apply Hin.
+        * intros K' Hi Hj. apply Hk; [inc | exact Hj].
+  Qed.
 
-(* the JSON key cache, positive and negative (ExplicitNull) entries *)
-Lemma M_key_loop : forall ks K c r, (forall K', incl K K' -> M K' c r) -> M K (key_loop ks c) r.
-Proof.
-  induction ks as [|k ks IH]; intros K c r Hc; cbn [key_loop].
-  - apply Hc. inc.
-  - apply MP_rd.
-    + intros _ _. apply MP_yield. destruct k.
-      * apply MP_wr; [exact I | inc |]. apply IH. intros K' Hi. apply Hc. inc.
-      * apply MP_yield. apply MP_wr; [exact I | inc |]. apply IH. intros K' Hi. apply Hc. inc.
-      * apply MP_yield. apply MP_wr; [exact I | inc |]. apply IH. intros K' Hi. apply Hc. inc.
-      * apply MP_yield. apply MP_wr; [exact I | inc |]. apply IH. intros K' Hi. apply Hc. inc.
-    + intros v _. apply IH. intros K' Hi. apply Hc. inc.
-Qed.
-
-Lemma path_ids_nil : forall fs i, Forall (fun f => fd_path f = false) fs -> path_ids fs i = [].
-Proof.
-  induction fs as [|f fs IH]; intros i H; cbn [path_ids]; [reflexivity|].
-  inversion H; subst. rewrite H2. cbn [app]. now apply IH.
-Qed.
-
-Lemma M_run_load_fn : forall cd l snap ks K, no_paths cd -> M K (run_load_fn cd (l :: snap) ks) [OSeq].
-Proof.
-  intros cd l snap ks K Hnp. unfold run_load_fn. rewrite (path_ids_nil _ 0 Hnp). cbn [subset forallb].
-  destruct (Nat.eqb l 1).
-  - apply M_key_loop. intros K' _. constructor.
-  - constructor.
-Qed.
-
-(* ------------------------------------------------ complete programs, safe region *)
-Theorem load_plain : forall fx tid cd ks K, no_paths cd -> M K (call_load fx tid cd ks) [OSeq].
-Proof.
-  intros fx tid cd ks K Hnp. unfold call_load. apply MP_rd.
-  - intros _ _. apply MP_yield. unfold gen_load. apply MP_yield.
-    apply M_p_fields. intros K1 H1. apply M_p_loader. intros K2 H2.
-    apply M_p_load_cfg; [assumption|]. intros K3 H3.
-    apply size_path_empty. cbn [Nat.eqb].
-    apply M_rd_any; [|reflexivity]. intros K4 o H4.
-    apply MP_yield. apply M_p_setattr. intros K5 H5. apply MP_yield.
-    apply MP_wr; [now exists 1, [] | inc |].
-    now apply M_run_load_fn.
-  - intros v (l & snap & ->). now apply M_run_load_fn.
-Qed.
-
-Definition base_val (v : vty) : Prop := exists b, v = VTBase b /\ b < NBASE.
-
-Definition safe_dump (cd : cdesc) : Prop :=
-  no_paths cd /\ (cd_skipdef cd = false \/ dflt_ids (cd_fields cd) 0 = []).
-
-Lemma M_p_value : forall fx o v K c r, base_val v -> (forall K', incl K K' -> M K' c r) -> M K (p_value fx o v c) r.
-Proof.
-  intros fx o v K c r (b & -> & Hb) Hc. unfold p_value. cbn [tkey_of]. apply MP_rd.
-  - intros _ Hst. exfalso. cbn [static_val] in Hst.
-    apply Nat.ltb_lt in Hb. rewrite Hb in Hst. discriminate.
-  - intros v _. apply Hc. inc.
-Qed.
-
-(* the REPAIRED hook scan (`for t in tuple(hooks)`) is memo-shaped for EVERY value type *)
-Lemma M_hook_scan_snap : forall l o v K c r,
-  (forall t, In t l -> In (T_HOOKS o, t) K) -> (forall K', incl K K' -> M K' c r) ->
-  M K (hook_scan_snap l o v c) r.
-Proof.
-  induction l as [|t l IH]; intros o v K c r Hl Hc; cbn [hook_scan_snap].
-  - apply MP_yield. apply MP_wr; [exact I | inc |]. apply Hc. inc.
-  - apply MP_yield. destruct (matches v t).
-    + apply MP_yield. apply M_rd_known; [apply Hl; now left|]. intros hv _. cbn [need Imp_lib app].
-      apply MP_wr; [exact I | inc |]. apply Hc. inc.
-    + apply IH; [|assumption]. intros t' Ht. apply Hl. now right.
-Qed.
-
-Lemma M_p_value_repaired : forall fx o v K c r, fx30 fx = true ->
-  (forall K', incl K K' -> M K' c r) -> M K (p_value fx o v c) r.
-Proof.
-  intros fx o v K c r Hfx Hc. unfold p_value. apply MP_rd.
-  - intros _ _. apply MP_yield. rewrite Hfx. apply MP_keys. intro l.
-    apply M_hook_scan_snap.
-    + intros t Ht. apply in_or_app. left. apply in_map_iff. now exists t.
-    + intros K' Hi. apply Hc. intros x Hx. apply Hi. apply in_or_app. now right.
-  - intros hv _. apply Hc. inc.
-Qed.
-
-Definition vals_ok (fx : fixes) (vals : list vty) : Prop := fx30 fx = true \/ Forall base_val vals.
-
-Lemma M_dump_values : forall fx cd o skip vals i K c r, vals_ok fx vals ->
-  (forall K', incl K K' -> M K' c r) -> M K (dump_values fx cd o skip i vals c) r.
-Proof.
-  intros fx cd o skip vals. induction vals as [|v vals IH]; intros i K c r Hv Hc; cbn [dump_values].
-  - apply Hc. inc.
-  - assert (Hv' : vals_ok fx vals).
-    { destruct Hv as [Hv|Hv]; [now left | right; now inversion Hv]. }
-    destruct (cd_skipdef cd && mem i skip).
-    + now apply IH.
-    + assert (Hrest : forall K', incl K K' -> M K' (dump_values fx cd o skip (Datatypes.S i) vals c) r).
-      { intros K' Hi. apply IH; [assumption|]. intros K'' Hi'. apply Hc. inc. }
-      destruct Hv as [Hv|Hv].
-      * now apply M_p_value_repaired.
-      * inversion Hv; subst. now apply M_p_value.
-Qed.
-
-Lemma M_run_dump_fn : forall fx cd o skip vals K, safe_dump cd -> vals_ok fx vals ->
-  M K (run_dump_fn fx cd (o :: skip) vals) [OSeq].
-Proof.
-  intros fx cd o skip vals K [Hnp Hs] Hv. unfold run_dump_fn.
-  apply M_dump_values; [assumption|]. intros K' _.
-  replace (cd_skipdef cd && negb (subset (dflt_ids (cd_fields cd) 0) skip)) with false; [constructor|].
-  destruct Hs as [-> | ->]; [reflexivity|]. cbn [subset forallb negb]. now rewrite andb_false_r.
-Qed.
-
-Lemma M_gen_dump_fields : forall dd fs i skip K c r,
-  (forall skip' K', incl K K' -> M K' (c skip') r) -> M K (gen_dump_fields dd fs i skip c) r.
-Proof.
-  intros dd. induction fs as [|f fs IH]; intros i skip K c r Hc; cbn [gen_dump_fields].
-  - apply Hc. inc.
-  - apply M_rd_any; [|reflexivity]. intros K1 dv H1.
+  (* dataclass_field_to_default: whoever gets a dict handed out knows every default to be in it *)
+  Lemma M_p_defaults : forall tid K c r,
+    (forall o K', incl K K' -> (forall j, In j DF -> In (T_DEFAULTS o, j) K') -> M K' (c o) r) ->
+    M K (p_defaults tid cd c) r.
+  Proof.
+    intros tid K c r Hc. unfold p_defaults.
+    assert (Hret : forall K1, incl K K1 -> In (T_DEFREG, 0) K1 ->
+              M K1 (Rd T_DEFREG 0 (fun r2 => match r2 with
+                                             | Some (VN o) => c o
+                                             | Some _ => Ret [OErr ETypeError]
+                                             | None => Ret [OErr EKeyError]
+                                             end)) r).
+    { intros K1 H1 Hin. apply M_rd_known; [assumption|]. intros v [o ->]. apply Hc.
+      - intros x Hx. apply in_or_app. right. right. now apply H1.
+      - intros j Hj. apply in_or_app. left. cbn [Imp_lib]. apply in_map_iff. now exists j. }
     apply MP_rd.
-    + intros _ _. apply MP_wr; [discriminate | inc |].
-      apply IH. intros skip' K' Hi. apply Hc. inc.
-    + intros av Hav. cbn [R_lib] in Hav.
-      assert (Hrec : forall K2, incl K1 K2 ->
-                M K2 (gen_dump_fields dd fs (Datatypes.S i)
-                        match dv with Some _ => i :: skip | None => skip end c) r).
-      { intros K2 H2. apply IH. intros skip' K' Hi. apply Hc. inc. }
-      destruct av as [|n|[|x l]]; try (apply Hrec; inc).
-      now elim Hav.
-Qed.
+    - intros _ _. apply MP_yield. apply MP_yield. apply M_p_fields. intros K1 H1.
+      apply M_fill_loop; [auto|]. intros K2 H2 Hj.
+      apply MP_wr; [now exists tid | |].
+      + cbn [Imp_lib]. intros x Hx. apply in_map_iff in Hx as (j & <- & Hjn). now apply Hj.
+      + apply Hret; [inc | now left].
+    - intros v _. apply Hret; [inc | apply in_or_app; right; now left].
+  Qed.
 
-Theorem dump_plain : forall fx tid cd vals K, safe_dump cd -> vals_ok fx vals ->
-  M K (call_dump fx tid cd vals) [OSeq].
-Proof.
-  intros fx tid cd vals K Hs Hv. pose proof Hs as [Hnp _]. unfold call_dump. apply MP_rd.
-  - intros _ _. apply MP_yield. unfold gen_dump. apply MP_yield.
-    apply M_p_dumper. intros o K1 H1.
-    apply M_p_dump_cfg; [assumption|]. intros K2 H2. apply MP_yield.
-    apply M_p_defaults. intros dd K3 H3. apply M_p_fields. intros K4 H4.
-    apply M_rd_any; [|reflexivity]. intros K5 ca H5.
-    apply MP_size. intros _.
-    apply M_gen_dump_fields. intros skip K6 H6.
-    apply MP_yield. apply M_p_setattr. intros K7 H7. apply MP_yield.
-    apply MP_wr; [now exists o, skip | inc |].
-    now apply M_run_dump_fn.
-  - intros v (o & skip & ->). now apply M_run_dump_fn.
-Qed.
+  Lemma M_p_loader : forall tid K c r, (forall K', incl K K' -> M K' c r) -> M K (p_loader tid c) r.
+  Proof.
+    intros tid K c r Hc. unfold p_loader. apply MP_rd.
+    - intros _ _. apply MP_yield. apply MP_wr; [exact I | inc |]. apply Hc. inc.
+    - intros v _. apply Hc. inc.
+  Qed.
 
-(* EnvWizard.__init__ without _reload: environ, Env.var_names, (Env.cleaned_to_env) *)
-Lemma M_p_load_environ : forall tid K c r,
-  (forall K', incl K K' -> In (T_ENVIRON, 0) K' -> M K' c r) -> M K (p_load_environ tid false c) r.
-Proof.
-  intros tid K c r Hc. unfold p_load_environ. apply MP_rd.
-  - intros _ _. cbn [is_some negb orb]. apply MP_yield.
-    apply MP_wr; [exact I | inc |]. apply Hc; [inc | now left].
-  - intros v _. cbn [is_some negb orb Imp_lib app]. apply Hc; [inc | now left].
-Qed.
+  Lemma M_p_dumper : forall tid K c r, (forall o K', incl K K' -> M K' (c o) r) -> M K (p_dumper tid c) r.
+  Proof.
+    intros tid K c r Hc. unfold p_dumper. apply MP_rd.
+    - intros _ _. apply MP_yield. apply MP_wr; [now exists tid | inc |].
+      apply M_rd_known; [now left|]. intros v [o ->]. apply Hc. inc.
+    - intros v [o ->]. apply Hc. inc.
+  Qed.
 
-Lemma M_p_member : forall oid K c r, In (T_ENVIRON, 0) K ->
-  (forall K', incl K K' -> M K' (c 1) r) -> M K (p_member oid c) r.
-Proof.
-  intros oid K c r He Hc. unfold p_member, p_varnames. apply MP_rd.
-  - intros _ _. apply MP_yield. apply M_rd_known; [assumption|]. intros e _. cbn [is_some Imp_lib app].
+  Lemma M_p_setattr : forall a K c r, (forall K', incl K K' -> M K' c r) -> M K (p_setattr cd a c) r.
+  Proof.
+    intros a K c r Hc. unfold p_setattr. destruct (cd_wiz cd); [|apply Hc; inc].
+    apply MP_rd.
+    - intros _ _. apply MP_wr; [exact I | inc |]. apply Hc. inc.
+    - intros v _. apply Hc. inc.
+  Qed.
+
+  Definition no_paths : Prop := Forall (fun f => fd_path f = false) (cd_fields cd).
+
+  Lemma size_path_empty : forall K c r, M K (c 0) r -> M K (Size T_PATH c) r.
+  Proof. intros. apply MP_size_empty; auto. Qed.
+
+  Lemma M_p_load_cfg : forall fx K c r, no_paths ->
+    (forall K', incl K K' -> M K' c r) -> M K (p_load_cfg fx cd c) r.
+  Proof.
+    intros fx K c r Hnp Hc. unfold p_load_cfg. apply MP_rd.
+    - intros _ _. apply size_path_empty. cbn [Nat.eqb]. apply MP_yield.
+      apply M_p_fields. intros K1 H1.
+      apply M_for_fields with (P := fun f => fd_path f = false); [exact Hnp | |].
+      + intros i f k K' Hf Hi Hk. apply MP_yield. rewrite Hf. apply Hk. inc.
+      + intros K' Hi. apply MP_yield. apply MP_wr; [exact I | inc |]. apply Hc. inc.
+    - intros v _. apply M_rd_known; [now left|]. intros v2 _. cbn [need]. apply Hc. inc.
+  Qed.
+
+  Lemma M_p_dump_cfg : forall fx K c r, no_paths ->
+    (forall K', incl K K' -> M K' c r) -> M K (p_dump_cfg fx cd c) r.
+  Proof.
+    intros fx K c r Hnp Hc. unfold p_dump_cfg. apply MP_rd.
+    - intros _ _. apply MP_yield. apply size_path_empty. cbn [Nat.eqb]. apply MP_yield.
+      apply M_p_fields. intros K1 H1.
+      apply M_for_fields with (P := fun f => fd_path f = false); [exact Hnp | |].
+      + intros i f k K' Hf Hi Hk. apply MP_yield. rewrite Hf. apply Hk. inc.
+      + intros K' Hi. apply MP_yield. apply MP_wr; [exact I | inc |]. apply Hc. inc.
+    - intros v _. apply Hc. inc.
+  Qed.
+
+  (* the JSON key cache, positive and negative (ExplicitNull) entries *)
+  Lemma M_key_loop : forall ks K c r, (forall K', incl K K' -> M K' c r) -> M K (key_loop ks c) r.
+  Proof.
+    induction ks as [|k ks IH]; intros K c r Hc; cbn [key_loop].
+    - apply Hc. inc.
+    - apply MP_rd.
+      + intros _ _. apply MP_yield. destruct k.
+        * apply MP_wr; [exact I | inc |]. apply IH. intros K' Hi. apply Hc. inc.
+        * apply MP_yield. apply MP_wr; [exact I | inc |]. apply IH. intros K' Hi. apply Hc. inc.
+        * apply MP_yield. apply MP_wr; [exact I | inc |]. apply IH. intros K' Hi. apply Hc. inc.
+        * apply MP_yield. apply MP_wr; [exact I | inc |]. apply IH. intros K' Hi. apply Hc. inc.
+      + intros v _. apply IH. intros K' Hi. apply Hc. inc.
+  Qed.
+
+  Lemma path_ids_nil : forall fs i, Forall (fun f => fd_path f = false) fs -> path_ids fs i = [].
+  Proof.
+    induction fs as [|f fs IH]; intros i H; cbn [path_ids]; [reflexivity|].
+    inversion H; subst. rewrite H2. cbn [app]. now apply IH.
+  Qed.
+
+  Lemma M_run_load_fn : forall l snap ks K, no_paths -> M K (run_load_fn cd (l :: snap) ks) [OSeq].
+  Proof.
+    intros l snap ks K Hnp. unfold run_load_fn. rewrite (path_ids_nil _ 0 Hnp). cbn [subset forallb].
+    destruct (Nat.eqb l 1).
+    - apply M_key_loop. intros K' _. constructor.
+    - constructor.
+  Qed.
+
+  (* ------------------------------------------------ complete programs, safe region *)
+  Theorem load_plain : forall fx tid ks K, no_paths -> M K (call_load fx tid cd ks) [OSeq].
+  Proof.
+    intros fx tid ks K Hnp. unfold call_load. apply MP_rd.
+    - intros _ _. apply MP_yield. unfold gen_load. apply MP_yield.
+      apply M_p_fields. intros K1 H1. apply M_p_loader. intros K2 H2.
+      apply M_p_load_cfg; [assumption|]. intros K3 H3.
+      apply size_path_empty. cbn [Nat.eqb].
+      apply M_rd_any; [|reflexivity]. intros K4 o H4.
+      apply MP_yield. apply M_p_setattr. intros K5 H5. apply MP_yield.
+      apply MP_wr; [cbn; now exists 1, [] | inc |].
+      now apply M_run_load_fn.
+    - intros v (l & snap & ->). now apply M_run_load_fn.
+  Qed.
+
+  (* the hook scan over a snapshot is memo-shaped for EVERY run-time type of the value *)
+  Lemma M_hook_scan_snap : forall l o v K c r,
+    (forall t, In t l -> In (T_HOOKS o, t) K) -> (forall K', incl K K' -> M K' c r) ->
+    M K (hook_scan_snap l o v c) r.
+  Proof.
+    induction l as [|t l IH]; intros o v K c r Hl Hc; cbn [hook_scan_snap].
+    - apply MP_yield. apply MP_wr; [exact I | inc |]. apply Hc. inc.
+    - apply MP_yield. destruct (matches v t).
+      + apply MP_yield. apply M_rd_known; [apply Hl; now left|]. intros hv _. cbn [need Imp_lib app].
+        apply MP_wr; [exact I | inc |]. apply Hc. inc.
+      + apply IH; [|assumption]. intros t' Ht. apply Hl. now right.
+  Qed.
+
+  Lemma M_p_value : forall o v K c r, (forall K', incl K K' -> M K' c r) -> M K (p_value o v c) r.
+  Proof.
+    intros o v K c r Hc. unfold p_value. apply MP_rd.
+    - intros _ _. apply MP_yield. apply MP_keys. intro l.
+      apply M_hook_scan_snap.
+      + intros t Ht. apply in_or_app. left. apply in_map_iff. now exists t.
+      + intros K' Hi. apply Hc. intros x Hx. apply Hi. apply in_or_app. now right.
+    - intros hv _. apply Hc. inc.
+  Qed.
+
+  Lemma M_dump_values : forall o skip vals i K c r,
+    (forall K', incl K K' -> M K' c r) -> M K (dump_values cd o skip i vals c) r.
+  Proof.
+    intros o skip vals. induction vals as [|v vals IH]; intros i K c r Hc; cbn [dump_values].
+    - apply Hc. inc.
+    - destruct (cd_skipdef cd && mem i skip).
+      + now apply IH.
+      + apply M_p_value. intros K' Hi. apply IH. intros K'' Hi'. apply Hc. inc.
+  Qed.
+
+  Lemma M_run_dump_fn : forall o skip vals K, subset DF skip = true ->
+    M K (run_dump_fn cd (o :: skip) vals) [OSeq].
+  Proof.
+    intros o skip vals K Hs. unfold run_dump_fn.
+    apply M_dump_values. intros K' _. fold DF. rewrite Hs. cbn [negb]. rewrite andb_false_r. constructor.
+  Qed.
+
+  (* the per-field part of dump generation reads the defaults dict it was handed: it finds
+     exactly the fields that have a default *)
+  Lemma M_gen_dump_fields : forall dd fs i skip K c r,
+    (forall j, In j DF -> i <= j -> In j (dflt_ids fs i)) ->
+    (forall j, In j (dflt_ids fs i) -> In j DF) ->
+    (forall j, In j DF -> In (T_DEFAULTS dd, j) K) ->
+    (forall K', incl K K' -> M K' (c (rev skip ++ dflt_ids fs i)) r) ->
+    M K (gen_dump_fields dd fs i skip c) r.
+  Proof.
+    intros dd. induction fs as [|f fs IH]; intros i skip K c r Hsuf Hsub Hkn Hc; cbn [gen_dump_fields].
+    - cbn [dflt_ids] in Hc. rewrite app_nil_r in Hc. apply Hc. inc.
+    - assert (Hsuf' : forall j, In j DF -> Datatypes.S i <= j -> In j (dflt_ids fs (Datatypes.S i))).
+      { intros j Hj Hle. assert (Hin := Hsuf j Hj (Nat.lt_le_incl _ _ Hle)). cbn [dflt_ids] in Hin.
+        apply in_app_or in Hin as [Hin|Hin]; [|assumption].
+        destruct (fd_dflt f); [destruct Hin as [<-|[]]; lia | contradiction]. }
+      assert (Hrest : forall skip' K1, incl K K1 ->
+                (forall K', incl K1 K' -> M K' (c (rev skip' ++ dflt_ids fs (Datatypes.S i))) r) ->
+                M K1 (Rd T_ALIAS i (fun a =>
+                  match a with
+                  | None => Wr T_ALIAS i (VN (100 + i)) (gen_dump_fields dd fs (Datatypes.S i) skip' c)
+                  | Some av =>
+                      match av with
+                      | VL [] => Rd T_PATH i (fun p => need p (fun _ => gen_dump_fields dd fs (Datatypes.S i) skip' c))
+                      | _ => gen_dump_fields dd fs (Datatypes.S i) skip' c
+                      end
+                  end)) r).
+      { intros skip' K1 H1 Hc'.
+        assert (Hgo : forall K2, incl K1 K2 -> M K2 (gen_dump_fields dd fs (Datatypes.S i) skip' c) r).
+        { intros K2 H2. apply IH; [assumption | | |].
+          - intros j Hj. apply Hsub. cbn [dflt_ids]. apply in_or_app. now right.
+          - intros j Hj. apply H2, H1. now apply Hkn.
+          - intros K' Hi. apply Hc'. inc. }
+        apply MP_rd.
+        - intros _ _. apply MP_wr; [discriminate | inc |]. apply Hgo. inc.
+        - intros av Hav. cbn [R_lib] in Hav.
+          destruct av as [|n|[|x l]]; try (apply Hgo; inc). now elim Hav. }
+      cbn [dflt_ids] in Hc. destruct (fd_dflt f) eqn:Ef.
+      + (* a default field: its entry is known to be present *)
+        apply M_rd_known.
+        * apply Hkn. apply Hsub. cbn [dflt_ids]. rewrite Ef. now left.
+        * intros dv _. apply Hrest; [inc|]. intros K' Hi. cbn [rev]. rewrite <- app_assoc. cbn [app] in *. apply Hc. inc.
+      + (* no default: the dict cannot hold an entry for it *)
+        apply MP_rd.
+        * intros _ _. apply Hrest; [inc|]. intros K' Hi. cbn [app] in Hc. apply Hc. inc.
+        * intros dv Hdv. exfalso. cbn [R_lib] in Hdv.
+          assert (Hin := Hsuf i Hdv (le_n i)). cbn [dflt_ids] in Hin. rewrite Ef in Hin. cbn [app] in Hin.
+          apply dflt_ids_ge in Hin. lia.
+  Qed.
+
+  Theorem dump_plain : forall fx tid vals K, no_paths -> M K (call_dump fx tid cd vals) [OSeq].
+  Proof.
+    intros fx tid vals K Hnp. unfold call_dump. apply MP_rd.
+    - intros _ _. apply MP_yield. unfold gen_dump. apply MP_yield.
+      apply M_p_dumper. intros o K1 H1.
+      apply M_p_dump_cfg; [assumption|]. intros K2 H2. apply MP_yield.
+      apply M_p_defaults. intros dd K3 H3 Hkn. apply M_p_fields. intros K4 H4.
+      apply M_rd_any; [|reflexivity]. intros K5 ca H5.
+      apply MP_size. intros _.
+      apply M_gen_dump_fields.
+      + intros j Hj _. exact Hj.
+      + intros j Hj. exact Hj.
+      + intros j Hj. apply H5, H4. now apply Hkn.
+      + intros K6 H6. cbn [rev app]. fold DF.
+        apply MP_yield. apply M_p_setattr. intros K7 H7. apply MP_yield.
+        apply MP_wr; [exists o, DF; split; [reflexivity | apply subset_refl] | inc |].
+        apply M_run_dump_fn. apply subset_refl.
+    - intros v (o & skip & -> & Hs). now apply M_run_dump_fn.
+  Qed.
+
+  (* EnvWizard.__init__: environ, Env.var_names, Env.cleaned_to_env; with and without _reload *)
+  Lemma M_p_load_environ : forall tid K c r,
+    (forall K', incl K K' -> In (T_ENVIRON, 0) K' -> M K' c r) -> M K (p_load_environ tid false c) r.
+  Proof.
+    intros tid K c r Hc. unfold p_load_environ. apply MP_rd.
+    - intros _ _. cbn [is_some negb orb]. apply MP_yield.
+      apply MP_wr; [exact I | inc |]. apply Hc; [inc | now left].
+    - intros v _. cbn [is_some negb orb Imp_lib app]. apply Hc; [inc | now left].
+  Qed.
+
+  Lemma M_p_varnames : forall oid K c r, In (T_ENVIRON, 0) K ->
+    (forall a K', incl K K' -> In (T_OBJ, a) K' -> M K' (c a) r) -> M K (p_varnames oid c) r.
+  Proof.
+    intros oid K c r He Hc. unfold p_varnames. apply MP_rd.
+    - intros _ _. apply MP_yield. apply M_rd_known; [assumption|]. intros e _. cbn [is_some Imp_lib app].
+      apply MP_wr; [reflexivity | inc |].
+      apply MP_wr; [now exists oid | cbn [Imp_lib]; intros x [<-|[]]; now left |].
+      apply Hc; [inc | right; now left].
+    - intros v [a ->]. cbn [Imp_lib app]. apply Hc; [inc | now left].
+  Qed.
+
+  Lemma M_p_member : forall oid K c r, In (T_ENVIRON, 0) K ->
+    (forall K', incl K K' -> M K' (c 1) r) -> M K (p_member oid c) r.
+  Proof.
+    intros oid K c r He Hc. unfold p_member. apply M_p_varnames; [assumption|].
+    intros a K' Hi Ha. apply M_rd_known; [assumption|]. intros v ->. cbn [content Imp_lib app]. apply Hc. inc.
+  Qed.
+
+  Lemma M_p_cleaned : forall tid K c r, In (T_ENVIRON, 0) K ->
+    (forall a K', incl K K' -> In (T_OBJ, a) K' -> M K' (c a) r) -> M K (p_cleaned tid c) r.
+  Proof.
+    intros tid K c r He Hc. unfold p_cleaned. apply MP_rd.
+    - intros _ _. apply MP_wr; [exact I | inc |]. apply MP_yield.
+      apply M_p_member; [now right|]. intros K1 H1.
+      apply MP_wr; [reflexivity | inc |].
+      apply MP_wr; [now eexists | cbn [Imp_lib]; intros x [<-|[]]; now left |].
+      apply Hc; [inc | right; now left].
+    - intros v [a ->]. cbn [Imp_lib app]. apply Hc; [inc | now left].
+  Qed.
+
+  Lemma M_p_load_environ_force : forall tid K c r, In (T_ENVIRON, 0) K ->
+    (forall K', incl K K' -> M K' c r) -> M K (p_load_environ tid true c) r.
+  Proof.
+    intros tid K c r He Hc. unfold p_load_environ. apply M_rd_known; [assumption|].
+    intros e _. cbn [is_some negb orb Imp_lib app]. apply MP_yield.
+    apply MP_wr; [exact I | inc |].
     apply MP_wr; [reflexivity | inc |].
-    apply MP_wr; [now exists oid | cbn [Imp_lib]; intros x [<-|[]]; now left |].
-    apply M_rd_known; [right; now left|]. intros v ->. cbn [content]. apply Hc. inc.
-  - intros v [a ->]. cbn [Imp_lib app].
-    apply M_rd_known; [now left|]. intros v ->. cbn [content Imp_lib app]. apply Hc. inc.
-Qed.
+    apply MP_wr; [now eexists | cbn [Imp_lib]; intros x [<-|[]]; now left |].
+    apply M_rd_any; [|reflexivity]. intros K1 acc H1.
+    destruct (is_some acc); [|apply Hc; inc].
+    apply M_p_member; [apply H1; do 4 right; exact He|]. intros K2 H2.
+    apply MP_wr; [reflexivity | inc |].
+    apply MP_wr; [now eexists | cbn [Imp_lib]; intros x [<-|[]]; now left |].
+    apply Hc. inc.
+  Qed.
 
-Theorem env_plain : forall fx tid K, M K (call_env fx tid false) [OSeq].
-Proof.
-  intros fx tid K. unfold call_env. apply M_p_load_environ. intros K1 H1 He.
-  apply M_p_member; [assumption|]. intros K2 H2. cbn [Nat.eqb]. constructor.
-Qed.
+  Lemma M_p_reload : forall tid K c r,
+    (forall K', incl K K' -> In (T_ENVIRON, 0) K' -> M K' c r) -> M K (p_reload tid c) r.
+  Proof.
+    intros tid K c r Hc. unfold p_reload. apply M_p_load_environ. intros K1 H1 He.
+    apply M_p_varnames; [assumption|]. intros a K2 H2 Ha.
+    apply M_p_load_environ_force; [now apply H2|]. intros K3 H3.
+    apply M_rd_known; [now apply H3|]. intros old Hold. cbn [R_lib] in Hold. subst old. cbn [Imp_lib app content Nat.eqb].
+    apply MP_wr; [reflexivity | inc |].
+    apply M_rd_any; [|reflexivity]. intros K4 acc H4.
+    assert (He4 : In (T_ENVIRON, 0) K4) by (apply H4; do 2 right; apply H3, H2, He).
+    destruct (is_some acc).
+    - apply M_p_cleaned; [assumption|]. intros cobj K5 H5 Hco.
+      apply M_rd_known; [assumption|]. intros cc Hcc. cbn [R_lib] in Hcc. subst cc. cbn [content Imp_lib app Nat.eqb].
+      apply MP_wr; [reflexivity | inc |]. apply Hc; [inc | right; right; now apply H5].
+    - apply Hc; [inc | assumption].
+  Qed.
 
-(* ------------------------------------------------------------ whole threads *)
-Definition safe_call (fx : fixes) (cd : cdesc) (c : call) : Prop :=
-  match c with
-  | CLoad _ => no_paths cd
-  | CDump vals => safe_dump cd /\ vals_ok fx vals
-  | CEnv reload => reload = false
-  end.
+  Theorem env_plain : forall tid reload K, M K (call_env tid reload) [OSeq].
+  Proof.
+    intros tid reload K. unfold call_env.
+    assert (Hlook : forall K', In (T_ENVIRON, 0) K' ->
+              M K' (p_member (10 * tid + 1) (fun c1 =>
+                     if Nat.eqb c1 1 then Ret [OSeq]
+                     else p_member (10 * tid + 1) (fun _ =>
+                            p_cleaned tid (fun cobj => Rd T_OBJ cobj (fun cc =>
+                              Ret [if Nat.eqb (content cc) 1 then OSeq else OErr EMissingVars]))))) [OSeq]).
+    { intros K' He. apply M_p_member; [assumption|]. intros K2 H2. cbn [Nat.eqb]. constructor. }
+    destruct reload.
+    - apply M_p_reload. intros K1 H1 He. now apply Hlook.
+    - apply M_p_load_environ. intros K1 H1 He. now apply Hlook.
+  Qed.
 
-Lemma M_call : forall fx tid cd c K, safe_call fx cd c -> M K (call_prog fx tid cd c) [OSeq].
-Proof.
-  intros fx tid cd [ks|vals|reload] K H; cbn [call_prog safe_call] in *.
-  - now apply load_plain.
-  - destruct H. now apply dump_plain.
-  - subst. apply env_plain.
-Qed.
+  (* v1 class with a CatchAll field: the marker is read, never removed *)
+  Theorem v1_catchall_plain : forall K, M K call_v1_catchall [OSeq].
+  Proof.
+    intros K. unfold call_v1_catchall. apply MP_rd.
+    - intros _ _. apply MP_yield.
+      assert (Hgen : forall K1, In (T_V1ALIAS, K_CATCH_ALL) K1 ->
+                M K1 (Yield Y_v1_load_aliases_read
+                        (Rd T_V1ALIAS K_CATCH_ALL (fun ca =>
+                           let has := if is_some ca then 1 else 0 in
+                           Yield Y_v1_load_store (Wr T_LOADFUNC K_V1CLS (VN has)
+                             (Ret [if Nat.eqb has 1 then OSeq else OErr ETypeError]))))) [OSeq]).
+      { intros K1 Hin. apply MP_yield. apply M_rd_known; [assumption|]. intros ca _.
+        cbn [is_some Nat.eqb Imp_lib app]. apply MP_yield.
+        apply MP_wr; [reflexivity | inc |]. constructor. }
+      apply MP_rd.
+      + intros _ _. apply MP_wr; [exact I | inc |]. apply MP_yield.
+        apply MP_wr; [exact I | cbn [Imp_lib]; intros x [<-|[]]; now left |].
+        apply Hgen. right. now left.
+      + intros fl _. cbn [Imp_lib app]. apply Hgen. now left.
+    - intros v Hv. cbn [R_lib K_V1CLS Nat.eqb] in Hv. subst v. constructor.
+  Qed.
 
-Lemma M_thread : forall fx tid cd cs K, Forall (safe_call fx cd) cs ->
-  M K (thread_prog fx tid cd cs) (repeat OSeq (List.length cs)).
-Proof.
-  intros fx tid cd cs. induction cs as [|c cs IH]; intros K H; cbn [thread_prog List.length repeat].
-  - constructor.
-  - inversion H; subst.
-    eapply memo_bind; [now apply M_call|]. intros K1 Hi1.
-    eapply memo_bind; [now apply IH|]. intros K2 Hi2. cbn [app]. constructor.
-Qed.
+  (* ------------------------------------------------------------ whole threads *)
+  (* the safe region: EVERY call, provided the class has no JSON-path field (F31) *)
+  Definition safe_call (c : call) : Prop :=
+    match c with
+    | CLoad _ | CDump _ => no_paths
+    | CEnv _ | CV1Load => True
+    end.
 
-Lemma M_threads : forall fx cd pss tid, Forall (Forall (safe_call fx cd)) pss ->
-  Forall2 (fun p r => M [] p r) (thread_progs fx tid cd pss) (map (fun cs => repeat OSeq (List.length cs)) pss).
-Proof.
-  intros fx cd pss. induction pss as [|cs pss IH]; intros tid H; cbn [thread_progs map]; constructor.
-  - inversion H; subst. now apply M_thread.
-  - inversion H; subst. now apply IH.
-Qed.
+  Lemma M_call : forall fx tid c K, safe_call c -> M K (call_prog fx tid cd c) [OSeq].
+  Proof.
+    intros fx tid [ks|vals|reload|] K H; cbn [call_prog safe_call] in *.
+    - now apply load_plain.
+    - now apply dump_plain.
+    - apply env_plain.
+    - apply v1_catchall_plain.
+  Qed.
 
-Lemma initial_store_ok : forall cd, store_ok R_lib Imp_lib (initial_store cd).
-Proof.
-  intros cd T k v. unfold initial_store. destruct (cd_dumpmeta cd).
-  - unfold get. destruct (static_val T k) eqn:Es.
-    + intro H. inversion H; subst. destruct T; cbn in Es; try discriminate. split; [exact I | intros ? ? []].
-    + cbn [lookup]. destruct (ent_is T k (T_DUMPER, 0, VN 90)) eqn:E; [|discriminate].
-      intro H. inversion H; subst. apply ent_is_true in E as [-> ->]. split; [now exists 90 | intros ? ? []].
-  - unfold get. destruct (static_val T k) eqn:Es.
-    + intro H. inversion H; subst. destruct T; cbn in Es; try discriminate. split; [exact I | intros ? ? []].
-    + cbn [lookup]. discriminate.
-Qed.
+  Lemma M_thread : forall fx tid cs K, Forall safe_call cs ->
+    M K (thread_prog fx tid cd cs) (repeat OSeq (List.length cs)).
+  Proof.
+    intros fx tid cs. induction cs as [|c cs IH]; intros K H; cbn [thread_prog List.length repeat].
+    - constructor.
+    - inversion H; subst.
+      eapply memo_bind; [now apply M_call|]. intros K1 Hi1.
+      eapply memo_bind; [now apply IH|]. intros K2 Hi2. cbn [app]. constructor.
+  Qed.
 
-(* every call of every thread returns its sequential result, under every schedule *)
-Theorem lib_linearizable :
-  forall (fx : fixes) (cd : cdesc) (pss : list (list call)),
-    Forall (Forall (safe_call fx cd)) pss ->
-    forall (sched : list nat) (i : nat) (t : thread) (os : list outcome),
-      nth_error (snd (run sched (scenario fx cd pss))) i = Some t ->
-      finished t = Some os ->
-      exists cs, nth_error pss i = Some cs /\ os = repeat OSeq (List.length cs).
-Proof.
-  intros fx cd pss Hsafe sched i t os Hn Hf. unfold scenario in Hn.
-  destruct (memo_linearizable R_lib Imp_lib _ _ _ (initial_store_ok cd) (M_threads fx cd pss 0 Hsafe)
-              sched i t os Hn Hf) as [Hr _].
-  rewrite nth_error_map in Hr. destruct (nth_error pss i) as [cs|]; [|discriminate].
-  exists cs. split; [reflexivity|]. now inversion Hr.
-Qed.
+  Lemma M_threads : forall fx pss tid, Forall (Forall safe_call) pss ->
+    Forall2 (fun p r => M [] p r) (thread_progs fx tid cd pss) (map (fun cs => repeat OSeq (List.length cs)) pss).
+  Proof.
+    intros fx pss. induction pss as [|cs pss IH]; intros tid H; cbn [thread_progs map]; constructor.
+    - inversion H; subst. now apply M_thread.
+    - inversion H; subst. now apply IH.
+  Qed.
 
-(* -------------------------------------------------------- refutation witnesses *)
+  Lemma initial_store_ok : store_ok R_lib Imp_lib (initial_store cd).
+  Proof.
+    intros T k v. unfold initial_store. destruct (cd_dumpmeta cd).
+    - unfold get. destruct (static_val T k) eqn:Es.
+      + intro H. inversion H; subst. destruct T; cbn in Es; try discriminate. split; [exact I | intros ? ? []].
+      + cbn [lookup]. destruct (ent_is T k (T_DUMPER, 0, VN 90)) eqn:E; [|discriminate].
+        intro H. inversion H; subst. apply ent_is_true in E as [-> ->]. split; [now exists 90 | intros ? ? []].
+    - unfold get. destruct (static_val T k) eqn:Es.
+      + intro H. inversion H; subst. destruct T; cbn in Es; try discriminate. split; [exact I | intros ? ? []].
+      + cbn [lookup]. discriminate.
+  Qed.
+
+  (* every call of every thread returns its sequential result, under every schedule *)
+  Theorem lib_linearizable :
+    forall (fx : fixes) (pss : list (list call)),
+      Forall (Forall safe_call) pss ->
+      forall (sched : list nat) (i : nat) (t : thread) (os : list outcome),
+        nth_error (snd (run sched (scenario fx cd pss))) i = Some t ->
+        finished t = Some os ->
+        exists cs, nth_error pss i = Some cs /\ os = repeat OSeq (List.length cs).
+  Proof.
+    intros fx pss Hsafe sched i t os Hn Hf. unfold scenario in Hn.
+    destruct (memo_linearizable R_lib Imp_lib _ _ _ initial_store_ok (M_threads fx pss 0 Hsafe)
+                sched i t os Hn Hf) as [Hr _].
+    rewrite nth_error_map in Hr. destruct (nth_error pss i) as [cs|]; [|discriminate].
+    exists cs. split; [reflexivity|]. now inversion Hr.
+  Qed.
+End Lib.
+
+(* -------------------------------------------------------- refutation witness (F31, open) *)
 Definition cd_any1 : cdesc := mkC [mkF false false] false false false.
 Definition cd_paths2 : cdesc := mkC [mkF false true; mkF false true] false false false.
 Definition cd_dflt2 : cdesc := mkC [mkF true false; mkF true false] false true true.
@@ -391,37 +532,29 @@ Definition cd_dflt2 : cdesc := mkC [mkF true false; mkF true false] false true t
 Definition IDX_dict : nat := 16.
 Definition IDX_str : nat := 0.
 
-(* A: dump of a `class MyDict(dict)` value, B: dump of a `class MyStr(str)` value (field typed Any) *)
-Definition cfg_hook_scan : config :=
-  scenario no_fixes cd_any1 [[CDump [VTSub 0 IDX_dict]]; [CDump [VTSub 1 IDX_str]]].
-(* A runs until it is inside `for t in hooks` (1st arrival at hook_scan.iter), B runs to its end, A resumes *)
-Definition seg_hook_scan : list nat := repeat 0 16 ++ repeat 1 4 ++ [0].
-
 Definition cfg_path_dump : config := scenario no_fixes cd_paths2 [[CDump [VTBase 1; VTBase 1]]; [CDump [VTBase 1; VTBase 1]]].
 Definition seg_path_dump : list nat := repeat 0 8 ++ repeat 1 20 ++ repeat 0 10.
 Definition cfg_path_load : config := scenario no_fixes cd_paths2 [[CLoad [KPathTop]]; [CLoad [KPathTop]]].
 Definition seg_path_load : list nat := repeat 0 7 ++ repeat 1 20 ++ repeat 0 10.
 
-Definition cfg_defaults : config := scenario no_fixes cd_dflt2 [[CDump [VTBase 1; VTBase 1]]; [CDump [VTBase 1; VTBase 1]]].
-Definition seg_defaults : list nat := repeat 0 11 ++ repeat 1 10 ++ repeat 0 10.
-
-Definition cfg_v1_catchall : config := ([], start [call_v1_catchall no_fixes; call_v1_catchall no_fixes]).
-Definition seg_v1_catchall : list nat := [0; 0; 0; 1; 1; 1; 1; 0; 0].
-
-Definition cfg_env_reload : config := scenario no_fixes cd_any1 [[CEnv false]; [CEnv true]].
-Definition seg_env_reload : list nat := [1; 1; 0; 0; 0; 0; 1; 1].
-
 Definition sequential2 : list nat := repeat 0 400 ++ repeat 1 400.
 Definition sequential2' : list nat := repeat 1 400 ++ repeat 0 400.
 
-(* the same scenarios with the proposed repairs switched on (proposed_fixes/F30..F34.patch) *)
-Definition all_fixes : fixes := mkX true true true true true.
-Definition fixed_hook_scan : config :=
-  scenario all_fixes cd_any1 [[CDump [VTSub 0 IDX_dict]]; [CDump [VTSub 1 IDX_str]]].
-Definition fixed_path_dump : config := scenario all_fixes cd_paths2 [[CDump [VTBase 1; VTBase 1]]; [CDump [VTBase 1; VTBase 1]]].
-Definition fixed_path_load : config := scenario all_fixes cd_paths2 [[CLoad [KPathTop]]; [CLoad [KPathTop]]].
-Definition fixed_defaults : config := scenario all_fixes cd_dflt2 [[CDump [VTBase 1; VTBase 1]]; [CDump [VTBase 1; VTBase 1]]].
-Definition fixed_v1_catchall : config := ([], start [call_v1_catchall all_fixes; call_v1_catchall all_fixes]).
-Definition fixed_env_reload : config := scenario all_fixes cd_any1 [[CEnv false]; [CEnv true]].
+(* the proposed repair of F31 switched on *)
+Definition f31_fixed : fixes := mkX true.
+Definition fixed_path_dump : config := scenario f31_fixed cd_paths2 [[CDump [VTBase 1; VTBase 1]]; [CDump [VTBase 1; VTBase 1]]].
+Definition fixed_path_load : config := scenario f31_fixed cd_paths2 [[CLoad [KPathTop]]; [CLoad [KPathTop]]].
 Definition replay_on (seg : list nat) (c : config) : list (option (list outcome)) :=
   outcomes (run (micro_of RUN_FUEL seg c ++ sequential2) c).
+
+(* the schedules that exposed the four defects now repaired (F30, F32, F33, F34): kept as
+   regression examples of the repaired model (the harness replays them on the implementation) *)
+Definition cfg_hook_scan : config :=
+  scenario no_fixes cd_any1 [[CDump [VTSub 0 IDX_dict]]; [CDump [VTSub 1 IDX_str]]].
+Definition seg_hook_scan : list nat := repeat 0 16 ++ repeat 1 4 ++ [0].
+Definition cfg_defaults : config := scenario no_fixes cd_dflt2 [[CDump [VTBase 1; VTBase 1]]; [CDump [VTBase 1; VTBase 1]]].
+Definition seg_defaults : list nat := repeat 0 11 ++ repeat 1 10 ++ repeat 0 10.
+Definition cfg_v1_catchall : config := scenario no_fixes cd_any1 [[CV1Load]; [CV1Load]].
+Definition seg_v1_catchall : list nat := [0; 0; 0; 1; 1; 1; 1; 0; 0].
+Definition cfg_env_reload : config := scenario no_fixes cd_any1 [[CEnv false]; [CEnv true]].
+Definition seg_env_reload : list nat := [1; 1; 0; 0; 0; 0; 1; 1].
